@@ -96,6 +96,19 @@ def run(v, O):
            ('number->rad units', O.same(Quantity(v.x).to('rad').units(), 'rad'))]
     return out
 '''
+QTARGET_SRC = '''
+def run(v, O):
+    # the target is a quantity k w (a unit with a numeric factor): the result counts how many 'k w' fit into x u
+    out = []
+    for label, target in (('Quantity(k, w)', Quantity(v.k, v.w)), ('k * Unit(w)', v.k * Unit(v.w))):
+        r = Quantity(v.x, v.u).to(target)
+        out.append((f'to({label}): value = x F(u) / (k F(w))', O.eq(r.value() * v.k, v.x * v.ruw, 1e-9)))
+        out.append((f'to({label}): units', O.same(r.units(), Quantity(1, v.w).units())))
+    direct = Quantity(v.x, v.u).to(Quantity(v.k, v.w)).value()
+    via = Quantity(v.x, v.u).to(v.w).to(Quantity(v.k, v.w)).value()
+    out.append(('direct and via the plain unit agree', O.eq(direct, via, 1e-9)))
+    return out
+'''
 AFTER_SRC = '''
 def run(v, O):
     # a conversion that is refused, or a reciprocal one, must not influence the conversions that follow on the same object
@@ -196,6 +209,19 @@ def scenarios(tier, seed):
             continue
         S.append(Scenario(f'mismatch/{u or "(number)"}->{w}', MISMATCH_SRC, {'x': 'real'}, consts={'u': u, 'w': w}, preamble=PRE,
                           what=f'conversion between different dimensions {u or "(bare number)"} -> {w} must be refused', samples=1))
+    # every prefix against the exponent published in docs/source/_static/tables/prefixes.csv (the other scenarios take factors from the library's own tables)
+    import csv as _csv, re as _re
+    for row in _csv.DictReader(open('/repo/docs/source/_static/tables/prefixes.csv')):
+        n = int(_re.search(r'10\^\{(-?\d+)\}', row['Magnitude']).group(1))
+        for base, power in (('m', 1), ('s', -2)):
+            u = row['Symbol'] + base + (str(power) if power != 1 else '')
+            w = base + (str(power) if power != 1 else '')
+            S.append(Scenario(f'prefix/{u}->{w}', LINEAR_SRC, {'x': 'real'}, consts={'u': u, 'w': w, 'm': w, 'ruw': 10.0 ** (n * power)}, preamble=PRE,
+                              what=f'{u} -> {w} with the published prefix exponent {n}', samples=1))
+    for u, w in (('m', 'm'), ('m', 'cm'), ('km2', 'km2'), ('kg*m2/s2', 'kg*m2/s2'), ('J', 'erg'), ('km/h', 'm/s'), ('s', 's')):
+        ruw = unitkit.ref_parse(u).value() / unitkit.ref_parse(w).value()
+        S.append(Scenario(f'qtarget/{u}->{w}', QTARGET_SRC, {'x': 'real', 'k': 'real'}, ['v.k > 0'], consts={'u': u, 'w': w, 'ruw': ruw}, preamble=PRE + 'from scinumtools.units import Unit\n',
+                          what=f'{u} converted to a quantity target k {w}', samples=2))
     for u, w, bad, recip in (('km', 'm', 's', None), ('kHz', 'Hz', 'm', 'ms'), ('g/cm3', 'kg/m3', 'kW*h', None), ('cm-1', 'm-1', 'kg', 'um'), ('Ohm', 'kOhm', None, 'S'), ('J', 'erg', 'K', None),
                               ('s', 'ms', None, 'Hz'), ('km/h', 'm/s', 'm', None)):
         ruw = unitkit.ref_parse(u).value() / unitkit.ref_parse(w).value()
